@@ -91,6 +91,12 @@ def r181_182(db, ctx):
                     rr = G.relations(f, R, bi)
                     if G.holds(rr, 'lt', lambda e: norm(e) == var, lambda e: norm(e) == ('k', 0)):
                         okn = True
+        if not okn and var[0] == 'v':
+            # expression form: let position = if index < 0 { index + len } else { index };
+            ve = norm(X.Rec(f, ite=True).local(var[1]))
+            mi = m(('ite', ('bin', 'Lt', '$x', ('k', 0)), ('bin', 'Add', '$x', '$len'), '$x'), ve)
+            if mi is not None and strip_self(mi['$len']) == Lc:
+                okn = True
         if okn:
             ctx.ok('R18.2', f, 'negative index normalised by adding the length', ['if i < 0 { i += len }'])
         else:
@@ -286,7 +292,9 @@ def r184(db, ctx):
         for sb in sblocks:
             rels = G.relations(f, R, sb)
             nn = any(r[0] == 'false' and r[1][0] == 'call' and r[1][1].endswith('is_null') for r in rels)
-            wr = any(r[0] == 'ne' and 'BitAnd' in X.canon(r[1]) for r in rels)
+            # writable requests refused: continue only under (flags & W) != W, or (flags & W) == 0 (W is the single bit PyBUF_WRITABLE)
+            wr = any(r[0] == 'ne' and 'BitAnd' in X.canon(r[1]) for r in rels) or \
+                any(r[0] == 'eq' and 'BitAnd' in X.canon(r[1]) and norm(r[2]) == ('k', 0) for r in rels)
             if not (nn and wr):
                 probs.append('a field of the view is written on a path that did not pass the null-view / writable-request refusals')
                 break
